@@ -19,7 +19,7 @@ VARIANTS = [
     {'name': 'filter-wrong-column', 'rule': 'C13.R2',
      'edits': [(I, "if chains and line[21] not in chains:", "if chains and line[20] not in chains:")]},
     {'name': 'ter-made-chain-aware', 'rule': 'C13.R1',
-     'edits': [(I, "        if tag == 'TER   ':\n            nterm_residue = 'next_residue'", "        if tag == 'TER   ' and not (chains and line[21] not in chains):\n            nterm_residue = 'next_residue'")]},
+     'edits': [(I, "        if tag.rstrip() == 'TER':\n            nterm_residue = 'next_residue'", "        if tag.rstrip() == 'TER' and not (chains and line[21] not in chains):\n            nterm_residue = 'next_residue'")]},
     {'name': 'option-not-append', 'rule': 'C13.R3',
      'edits': [('lib.py', '"-c", "--chain", action="append", dest="chains",', '"-c", "--chain", dest="chains",')]},
     {'name': 'caller-drops-chains', 'rule': 'C13.R3',
@@ -36,4 +36,6 @@ VARIANTS = [
             if line[17: 20] in ignore_residues:
                 continue
 """)]},
+    {'name': 'revert-fix-F21-selection-not-materialised', 'rule': 'C13.R2',
+     'edits': [(I, "    if chains is not None:\n        chains = tuple(chains)\n", "")]},
 ]
